@@ -994,6 +994,7 @@ def c17(ctx):
         obs.append(anchor_ob("R-PROBE", "no Gitignore::matched call"))
     import p_ignore
     obs += p_ignore.root_never_matched(fx)
+    obs += p_ignore.verdict_readback(fx)
     ctx.add(obs)
 
 
@@ -1448,6 +1449,27 @@ def c16(ctx):
                       "rejection %s is decided before the copy starts: %s" % (k_[0], ok)))
     if len(seen_rej) < 6:
         obs.append(anchor_ob("R-ORDER", "rejections in main (found %d)" % len(seen_rej)))
+    # "several sources need a directory": the InvalidDestination rejections are decided by whether the destination
+    # *is a directory* (is_dir == false covers a missing destination, a file, a FIFO, a dangling link alike); a
+    # test for one of the other things it might be (is_file) lets the rest through to the copy
+    DIRQ = ("std::path::Path::is_dir", "libxcp::paths::is_dir", "std::fs::Metadata::is_dir", "std::fs::FileType::is_dir")
+    rej = []
+    for bi, b in enumerate(m.blocks):
+        if b.get("cleanup") or bi not in set(prefix):
+            continue
+        for s_ in b["stmts"]:
+            rv = s_["rv"]
+            if rv["k"] == "agg" and rv.get("adt") == "libxcp::errors::XcpError" and rv.get("variant") == "InvalidDestination":
+                rej.append((bi, s_))
+    gated_any = False
+    for bi, s_ in rej:
+        if any(q.gated(m, bi, "call", pr_, False, fx)[0] for pr_ in DIRQ):
+            gated_any = True
+    if rej:
+        obs.append(Ob("R-TABLE", mkkey("R-TABLE", MAIN, "XcpError::InvalidDestination", 0, "not-a-directory"), gated_any, m.loc(), MAIN,
+                      "a destination that is not a directory is refused for several sources / a directory source: the refusal "
+                      "depends on is_dir(dest) == false: %s" % gated_any,
+                      None if gated_any else dict(note="no InvalidDestination rejection is control-dependent on a directory test of the destination being false")))
     # the option conflict is rejected before the copy
     obs += p_gate.force_conflict(fx)
     # glob expansion (and its errors) happens before the copy starts and not after
